@@ -365,6 +365,13 @@ func (g *sgen) multi() string {
 	switch g.Pick(10, "multi") {
 	case 0: // swap of two places
 		a, b := g.place().text, g.place().text
+		if g.Chance(2, 5, "swap-vars") {
+			// plain variables on both sides: the two-variable fast path of Comp.assign2
+			vs := []string{"x0", "x1", g.px + "g1"}
+			k := g.Pick(3, "swap-var")
+			a, b = vs[k], vs[(k+1+g.Pick(2, "swap-var2"))%3]
+			g.Tag("multi:swap-vars")
+		}
 		if countCalls(a+b, g.px) > 0 {
 			// a place containing a counting call would be evaluated twice in a swap text
 			a, b = "x0", "arr[i]"
@@ -581,7 +588,7 @@ func Generate(t *rapid.T, px string) gobatch.Program {
 	w("var nm map[int]%s", T)
 	w("var np *%s", T)
 	w("var nps *%sS", px)
-	w("_, _, _, _, _, _ = big, neg, zz, nm, np, nps")
+	w("_, _, _, _, _, _, _ = big, neg, zz, nm, np, nps, pa")
 	w("dump := func(n int) {")
 	w("\trec.E(n, x0, x1, %sg1, i, j, ok, arr, sl, sl2, *px)", px)
 	w("\trec.E(n, m, m2, ms, st, *ps, as, %sgs, msl, *mp[0], *mp[1], len(sl), len(m))", px)
